@@ -775,7 +775,8 @@ class TraceManager:
         for node in removed:
             descs = self.tracegraph.remove_with_descs(node)
             for desc in descs:
-                desc[OBJ].on_clear_trace(desc[KEY])
+                if node_has_key(desc):
+                    desc[OBJ].on_clear_trace(desc[KEY])
 
     def get_calcsteps(self, targets, nodes, step_size):
         """ Get calculation steps
